@@ -5,7 +5,6 @@
 //! layout of a connection input: [limit selector][n = number of schedule bytes (0..=32)]
 //! [n schedule bytes][stream ...]
 
-use crate::connrun::*;
 use crate::engine::*;
 use crate::props::conn::*;
 use crate::props::conn2::*;
